@@ -222,7 +222,7 @@ def family(cfg):
     out = []
     from ..seams import mailbox_id_from_bytes
     M1 = mailbox_id_from_bytes(b"\x5a\xa5" + (1).to_bytes(6, "big"))     # first id the counter-based random source yields
-    for via in ("open", "claim", "claim+release"):
+    for via in ("open", "claim", "claim+release", "claim+release-first"):
         for n in (1, 2, 3, 4):
             opts = [("none",)] + [("close", m) for m in MOODS]
             for assign in itertools.product(opts, repeat=min(n, 2)):
@@ -235,6 +235,11 @@ def family(cfg):
                     evs.append(("open", i, "m") if via == "open" else ("claim", i, "1"))
                     tl.append((t, evs))
                     t += 7.5
+                if via == "claim+release-first":
+                    # only the first side releases; the nameplate is then retired together with its mailbox (last
+                    # close or expiry) while it has a released and a still-claimed side
+                    tl.append((t, [("release", 0)]))
+                    t += 1.5
                 if n > 2 and via == "claim+release":
                     for i in range(n):
                         tl.append((t, [("release", i)]))
